@@ -334,8 +334,11 @@ def run(tier, seed):
         assumptions=["C12_no_panic_all / C12_no_panic_histories cover all 26 constructors of the operation alphabet with every argument "
                      "(cross-model moves included); the Float case of set_character_data is stated over run_opF: f64::to_string is an ORACLE "
                      "(any function from the 64 bits to a byte string), its digits are not modelled",
-                     "C12_no_panic2_partial: of the large alphabet op2 only Op1, OpSort, OpSortModel, OpSerializeElem are covered by a theorem; OpDuplicate, "
-                     "OpLoad, OpSetVersion, OpCheckCompat, OpSerializeFile are PENDING (correspondence + fuzzer only)",
+                     "C12_no_panic2_histories: histories over the large alphabet op2 are covered for Op1, OpSort, OpSortModel, OpSetVersion, "
+                     "OpCheckCompat, OpSerializeFile, OpSerializeElem; OpDuplicate and OpLoad are PENDING as steps (correspondence + fuzzer only)",
+                     "OpSetVersion / OpCheckCompat are covered in TYPED worlds only (agent-c17's TypedU: no move / copy that keeps a stored type the "
+                     "new parent does not list); outside them the call panics (C12_check_compat_panics_real, known finding C12-panic-check-compat-mixup)",
+                     "op_wfv / ver_ok: version arguments are values of AutosarVersion discriminants",
                      "SizeOk: every identifiables map has fewer than 10^39 entries (injectivity of format!(\"{counter}\") in make_unique_item_name)",
                      "check_fn (the regex validators) is total: C19",
                      "RootOK: the attribute list AutosarModel::new gives the root element uses attribute names / enum values of the tables",
